@@ -139,6 +139,7 @@ class FnContract:
     ghost: object = None  # (model) -> dict initial ghost state
     ghost_asserts: dict = field(default_factory=dict)
     shifts: str = r"^$"  # regex over constant names used as instantiation shifts
+    last_terms: object = r"^$"  # regex over constant names c: the term c - 1 ("last element") is added to the instantiation terms
     units: tuple = ()  # unit sizes (e.g. sector size): byte-index skolems are also instantiated at their unit quotient
     case: str = ""
     allow_any_exception: bool = False
